@@ -8,7 +8,7 @@ import collections
 from sa.fold import Lifted, Obj, Raised
 from sa.loader import AnalysisError
 
-CT = Obj(DEFAULT="DEFAULT", DELETION="DELETION", LEFT_FUSION="LEFT_FUSION", RIGHT_FUSION="RIGHT_FUSION")
+CT = Obj(DEFAULT="DEFAULT", DELETION="DELETION", LEFT_FUSION="LEFT_FUSION", RIGHT_FUSION="RIGHT_FUSION", CUSTOM="CUSTOM")
 REGIONS = ["e1", "e2", "pce"]
 
 
